@@ -5,6 +5,7 @@ CONSTANTS
   MaxUrl = 2
   ReuseOnLookup = FALSE
   FabricatedNorm = FALSE
+  EmptyParam = TRUE
   WildHostCheck = TRUE
   KF_Shadow = TRUE
   Source = "all"
